@@ -114,6 +114,12 @@ def execute_scripted(case, klass):
             ARM['site'] = site
         elif act == 'WantTeardown':
             ARM['want'] = 'teardown'
+        elif act == 'Vanish':
+            # the selector silently loses the adversary's descriptor (what epoll does when the number is closed / reused)
+            for fd, w in roles.items():
+                if w == 'adv':
+                    sim.ex.selector.map.pop(fd, None)
+                    sim.ex.selector._gen.pop(fd, None)
         elif act == 'Tick':
             sim.tick()
         elif act == 'Reap':
@@ -175,6 +181,13 @@ def adversaries(rnd, quick):
                             continue
                         out.append(('%s: %s on %s socket armed after step %d: %s' % (role, op, sock, cut, ename), role,
                                     base[:cut] + [('arm', sock, op, ename)] + base[cut:], 'accept'))
+        # a well-formed keep-alive conversation of two requests, then the adversary leaves
+        if role != 'tunnel':
+            req2 = req.replace(b'/r1', b'/r2').replace(b'/x ', b'/y ')
+            out.append(('%s: two keep-alive requests, then close' % role, role,
+                        [('c', req), ('u', 1, resp), ('c', req2), ('u', 2 if role == 'reverse' else 1, resp), ('cclose',)], 'accept'))
+            out.append(('%s: two keep-alive requests, second before the first answer' % role, role,
+                        [('c', req), ('c', req2), ('u', 1, resp), ('u', 2 if role == 'reverse' else 1, resp), ('cclose',)], 'accept'))
         # failing upstreams
         for how in ('refuse', 'timeout', 'gaierror', 'unreach'):
             out.append(('%s: upstream connect %s' % (role, how), role, base[:3], how))
@@ -222,8 +235,9 @@ def run_pair(role, script, how, with_adversary):
                 if not adv.closed:
                     adv.write(st[1])
             elif st[0] == 'u':
-                if ups and not ups[0].closed:
-                    ups[0].write(st[2])
+                ui = min(st[1], len(ups)) - 1
+                if ups and not ups[ui].closed:
+                    ups[ui].write(st[2])
             elif st[0] in ('cclose', 'creset', 'cshut'):
                 getattr(adv, {'cclose': 'close', 'creset': 'reset', 'cshut': 'shut_wr'}[st[0]])()
             elif st[0] in ('uclose', 'ureset', 'ushut'):
@@ -267,7 +281,7 @@ def run(chk):
         elif r.status != 'violated':
             raise MachineryError('Executor FIX=FALSE is expected to violate LoopSurvives (vacuity guard):\n' + r.brief())
     # ---- (i) scripted works on the real Threadless -----------------------------------------------------------------
-    behs, g = generate(600 if quick else 5000, chk.seed * 3 + 1)
+    behs, g = generate(4000 if quick else 20000, chk.seed * 3 + 1)
     chk.add_tlc('Executor -simulate', g)
     klass = fault_work_class()
     traces = []
